@@ -139,6 +139,9 @@ RankOf(v, k, method) ==
     [] method = "max"     -> R(CntLess(v, k) + CntEq(v, k))
     [] method = "dense"   -> R(CntDistLess(v, k) + 1)
     [] method = "average" -> Norm(<<2 * CntLess(v, k) + CntEq(v, k) + 1, 2>>)
+    \* one valid ordinal ranking (ties broken by position), used by the model only
+    [] method = "ordinal_model" ->
+         R(CntLess(v, k) + Cardinality({m \in NZIdx(v) : m <= k /\ VEq(v[m], v[k])}))
     [] OTHER              -> Unknown
 RankT(t, ax, method) ==
   MapNZ(t, LAMBDA v, i, j :
